@@ -555,6 +555,24 @@ def checkStep (e : Env) (pre : Sys) (op : Op) (res : Res) (post : Sys) (origin :
        let got := post.st.bal a - pre.st.bal a
        if got ≤ charged then none else some ("C04", s!"clause=refundWithinCharge cls=none rec=acct{a}:refund={got},charged={charged}"))
    else []) ++
+  -- C07: capacity is credited and debited at exactly the price paid or returned: an accepted AddVstorage / RemoveVstorage
+  -- changes the provider's pledged capacity (bytes) and its capacity collateral (coins) in the fixed proportion of the unit
+  -- price, so that every byte credited can later be withdrawn for the coins that bought it
+  (let capOp : Option Addr := match op with
+     | .addv c _ => some c
+     | .remv c _ => some c
+     | _ => none
+   match capOp with
+   | some c =>
+     if res = .ok then
+       let st0 : Int := ((pre.st.getPledge c).map (·.totalStorage)).getD 0
+       let pl0 : Int := ((pre.st.getPledge c).map (·.totalStoragePledged)).getD 0
+       let st1 : Int := ((post.st.getPledge c).map (·.totalStorage)).getD 0
+       let pl1 : Int := ((post.st.getPledge c).map (·.totalStoragePledged)).getD 0
+       if Dec.mulInt unitPriceDec (st1 - st0) = Dec.ofInt (pl1 - pl0) then [] else
+         [("C07", s!"clause=capacityPricedExactly cls=none rec=sp{c}:bytes={st1 - st0},coins={pl1 - pl0}")]
+     else []
+   | none => []) ++
   -- C04 / C13: an order leaves a model's order list only settled — a force-push terminates (refunds, releases) every order
   -- of the version it replaces before dropping it from the list, so none of them is left in the order store, paid for and
   -- unreachable from the model
